@@ -10,7 +10,11 @@
      the send loop `msg_idx = filtered_msgs[i] | i`, `fc.all_msgs[msg_idx - fc.drained_all_msgs]`,
      `msgs_sent.end = new_end`, and the one_pass_streams draining
      (`min` of all_msgs_last_processed_len, `saturating_sub`, `all_msgs.drain(0..amount)`).
-   Not transcribed (C16 / threads): what is put into the frames, lifecycle / eac / plugin-state frames,
+   The lifecycle part of the pass: `for lc in lc_map.iter().map(|(_id, b)| b.get_one().unwrap())` over the
+   evmap published by the lifecycle thread; the table the pass reads is an oracle value (event [TLcs]), an
+   entry is a key with its VALUE BAG (evmap: any number of values, also none).
+   Not transcribed (C16 / C13 / threads): what is put into the frames (which lifecycles a Lifecycles frame
+   carries: `lcs_w_refresh_idx > last_lcs_w_refresh_index`), eac / plugin-state frames,
    the completion test of queries (its outcome arrives as the event [EvDone]).
    Messages are represented by their position in all_msgs + drained (0,1,2,...); `match_filters` of a
    filtered stream is the predicate stored in [s_filter]. *)
@@ -26,6 +30,7 @@ Definition site_tick_msg_sub : N := 1523.      (* msg_idx - fc.drained_all_msgs 
 Definition site_tick_msg_idx : N := 1524.      (* fc.all_msgs[..] out of bounds *)
 Definition site_tick_drain : N := 1525.        (* all_msgs.drain(0..amount) with amount > len *)
 Definition site_psnm_first_unwanted : N := 1526. (* matching_idxs[nr_wanted] *)
+Definition site_tick_lc_get_one : N := 1527.   (* b.get_one().unwrap() on an entry of the lifecycle table *)
 
 Definition max_chunk_size : N := 3000000.
 Definition part_chunk_size : N := N.min max_chunk_size (64 * 1024).
@@ -152,13 +157,65 @@ Definition tick (st : state) (now : N) : res state :=
   | None => Ok st
   end.
 
+(* ------------------------------------------------------------------ the lifecycle table as a pass reads it *)
+(* `pt.lcs_r.read()`: a read reference on the evmap<LifecycleId, LifecycleItem> written by the lifecycle thread
+   (`None`: the map was destroyed).  Per key the reader gets the VALUE BAG of the key.  evmap keeps any number of
+   values per key: `insert` adds one, `update` replaces the bag by exactly one value, `empty` removes the key with
+   its bag, `clear` empties the bag but KEEPS the key.  `get_one` returns some value of the bag, `None` iff the
+   bag is empty (with several values: an arbitrary one - here the first; which one is irrelevant for the panic).
+   A value is what the pass looks at: (lifecycle id, nr_msgs). *)
+Definition lc_val := (N * N)%type.
+Definition lc_bag := list lc_val.
+Definition lc_entry := (N * lc_bag)%type.            (* key, bag *)
+Definition lc_table := option (list lc_entry).
+Definition get_one (b : lc_bag) : option lc_val := hd_error b.
+
+(* `lc_map.iter().map(|(_id, b)| b.get_one().unwrap())`: the values the loop body receives, in iteration order;
+   nothing is written to the socket before the loop has ended (the frame is built in a local vector) *)
+Fixpoint lc_loop (entries : list lc_entry) : res (list lc_val) :=
+  match entries with
+  | [] => Ok []
+  | (_, b) :: r =>
+      match get_one b with
+      | Some lc => (vs <- lc_loop r ;; Ok (lc :: vs))%res
+      | None => Panic site_tick_lc_get_one
+      end
+  end.
+
+(* the lifecycle part of one pass through process_file_context that read the table [t]: not reached while an
+   extraction is pending (return after the Progress frame; no parsing thread yet) or while paused *)
+Definition tick_lcs_fc (fc : fctx) (t : lc_table) : res unit :=
+  if fc_extracting fc then Ok tt
+  else if fc_paused fc then Ok tt
+  else match t with
+       | Some entries => (_ <- lc_loop entries ;; Ok tt)%res
+       | None => Ok tt
+       end.
+
+Definition tick_lcs (st : state) (t : lc_table) : res state :=
+  match st_fc st with
+  | Some fc => (_ <- tick_lcs_fc fc t ;; Ok st)%res
+  | None => Ok st
+  end.
+
+(* the contract of the lifecycle module the pass relies on (the lifecycle check states it on the writer's side:
+   clauses published_key_single_value / table_key_single_value of C05..C08): every published key has exactly
+   one value (entries are only ever `update`d = replaced, or `empty`d = removed with their key) *)
+Definition bag_single (b : lc_bag) : bool := match b with [_] => true | _ => false end.
+Definition published_key_single_value (t : lc_table) : bool :=
+  match t with Some entries => forallb (fun e => bag_single (snd e)) entries | None => true end.
+
 (* ------------------------------------------------------------------ the event loop *)
 (* what the client sees of process_file_context between two replies *)
 Inductive tevent :=
 | TMsgs (now : N)      (* a pass that received messages: FileInfo{nr_msgs = now} *)
 | TDone (id : N)       (* the query id was finished and removed *)
-| TExtracted (nfiles : N).  (* ProgressPoll::Done: file_streams := the extracted files (nfiles of them with a DLT
+| TExtracted (nfiles : N)   (* ProgressPoll::Done: file_streams := the extracted files (nfiles of them with a DLT
                                message, possibly 0), pending_extract := None, parser thread created *)
+| TLcs (t : lc_table).      (* a pass that read the lifecycle table t *)
+
+Definition tevent_contract (e : tevent) : bool :=
+  match e with TLcs t => published_key_single_value t | _ => true end.
 
 Definition extracted (st : state) (nfiles : N) : state :=
   match st_fc st with
@@ -176,6 +233,7 @@ Definition apply_tevent (st : state) (ev : tevent) : res state :=
   | TMsgs now => tick st now
   | TDone id => Ok (apply_event st (EvDone id))
   | TExtracted n => Ok (extracted st n)
+  | TLcs t => tick_lcs st t
   end.
 Fixpoint apply_tevents (st : state) (evs : list tevent) : res state :=
   match evs with
